@@ -179,6 +179,9 @@ def run(ctx):
         if name == "eval_tail_expression":
             from . import evaltables as _et
             _et.rule_tail_nesting(ctx, "C02-tail-returns", 3 if ctx.tier == "thorough" else 2)
+            # ... and form by form, a call with every kind of operator expression (variable, call, conditional, lambda expressions
+            # with fixed / rest / both parameters): never evaluated on the Rust stack
+            _et.rule_tail_dispatch(ctx, "C02-tail-returns")
         else:
             tail_table(ctx, fb, f, ee, vidx, depth=3 if ctx.tier == "thorough" else 2)
     if n_te < 1:
